@@ -91,6 +91,10 @@ class Result:
         from .model import AnalysisError
 
         self.units[what] = got
+        if got < minimum and self.findings:
+            # the shortfall is explained by a reported violation (e.g. a mask step that no longer has the shape)
+            self.notes.append(f"instance floor for {what} missed ({got} < {minimum}) together with reported findings")
+            return
         if got < minimum:
             raise AnalysisError(f"{self.prop}: instance floor missed for {what}: found {got} < {minimum} "
                                 f"(anchor vanished or rule no longer matches the code shape)")
